@@ -247,6 +247,8 @@ fn item() -> BoxedStrategy<Item> {
             Item { cmds, must_err: vec![], class: "transaction" }
         }),
         1 => select(vec![bs("UNSUBSCRIBE"), bs("PUNSUBSCRIBE")]).prop_map(|n| Item { cmds: vec![vec![n]], must_err: vec![], class: "unsubscribe-nothing" }),
+        // replies far larger than a socket buffer
+        1 => (select(vec![300_000usize, 2_000_000, 6_000_000]), any::<u8>()).prop_map(|(n, b)| Item { cmds: vec![vec![bs("SET"), bs("kbig"), vec![b | 1; n]], vec![bs("GET"), bs("kbig")], vec![bs("GET"), bs("kbig")], vec![bs("DEL"), bs("kbig")]], must_err: vec![], class: "large-reply" }),
     ]
     .boxed()
 }
@@ -662,18 +664,18 @@ pub fn run(tier: Tier, seed: u64, replay: Option<Value>) -> i32 {
         } else {
             exec_case(&mut wk, &j2case(c))
         };
-        println!("{}", serde_json::to_string_pretty(res.trace.as_ref().unwrap_or(&Value::Null)).unwrap());
+        crate::outln!("{}", serde_json::to_string_pretty(res.trace.as_ref().unwrap_or(&Value::Null)).unwrap());
         return match res.verdict {
             Verdict::Pass => {
-                println!("replay: PASS");
+                crate::outln!("replay: PASS");
                 0
             }
             Verdict::Fail { what, sig } => {
-                println!("replay: FAIL [{}] {}", sig, what);
+                crate::outln!("replay: FAIL [{}] {}", sig, what);
                 1
             }
             Verdict::Infra(m) => {
-                println!("replay: inconclusive {}", m);
+                crate::outln!("replay: inconclusive {}", m);
                 2
             }
         };
